@@ -668,6 +668,12 @@ def gen_C08(rng, ci, tier):
         n = max(n, 0)
         codes = rand_codes(rng, ci, n)
         d = s.embed(rng, codes)
+        # a valid current k-mer first: a failed construction must leave it alone, and kobs never
+        # shows an uninitialised register
+        v0 = 0
+        for i, c in enumerate(rand_codes(rng, ci, K)):
+            v0 |= c << (i * ci.bits)
+        s.add("kint", K, w, v0 & (2 ** 64 - 1), v0 >> 64)
         s.add("kfrom", K, w, d)
         s.add("kobs")
         if w == 0:
